@@ -30,10 +30,18 @@ def FrBound (hs : HState) (B : Nat) : Prop :=
 def LiveLe (hs : HState) (Pk : Nat) : Prop :=
   ∀ rs lin lazy live F, InvS hs rs [] lin lazy live F → live.length ≤ Pk
 
+/-- … whenever the deferred free list is empty (the only moments at which the bound is needed: the
+frontier moves only when both free lists are exhausted) -/
+def LiveLe0 (hs : HState) (Pk : Nat) : Prop :=
+  ∀ rs lin live F, InvS hs rs [] lin [] live F → live.length ≤ Pk
+
+theorem LiveLe.le0 {hs : HState} {Pk : Nat} (h : LiveLe hs Pk) : LiveLe0 hs Pk :=
+  fun rs lin live F J => h rs lin [] live F J
+
 /-- one step of the bound: the frontier has not moved, or both free lists are exhausted and then the blocks
 below the frontier are the blocks in use and the one block of the reusable list -/
 theorem FrBound.step {hs hs' : HState} {Pk : Nat} (hb : FrBound hs (Pk + 1)) (hbase : hs'.base = hs.base)
-    (hpk : FrPk hs hs') (hw : ∃ rs lin lazy live F, InvS hs rs [] lin lazy live F) (hl : LiveLe hs' Pk) :
+    (hpk : FrPk hs hs') (hw : ∃ rs lin lazy live F, InvS hs rs [] lin lazy live F) (hl : LiveLe0 hs' Pk) :
     FrBound hs' (Pk + 1) := by
   obtain ⟨rs0, lin0, lazy0, live0, F0, I0⟩ := hw
   intro rs lin lazy live F J
@@ -42,9 +50,9 @@ theorem FrBound.step {hs hs' : HState} {Pk : Nat} (hb : FrBound hs (Pk + 1)) (hb
     rw [hbase]
     have : (F - hs.base) / 64 ≤ (F0 - hs.base) / 64 := Nat.div_le_div_right (by omega)
     omega
-  · have hc := InvW.card J
-    have := hl _ _ _ _ _ J
-    rw [h2] at hc
+  · subst h2
+    have hc := InvW.card J
+    have := hl _ _ _ _ J
     simp only [List.length_nil] at hc
     unfold InvS at J
     omega
@@ -83,14 +91,16 @@ variable {F : Frame} (HF : FrameOK F) (h8 : F.c.heapBase % 8 = 0) {mon : MonCfg}
 from `X` (with at most `C` blocks below the frontier: the trivial bound, `A` blocks per step of the run —
 only such boundaries occur), at most `Pk` blocks are in use -/
 def PeakFrom (F : Frame) (mon : MonCfg) (px : X86.Prog) (cs : List Code) (P : Program) (hooks : Bool)
-    (prog : AxCut.Prog) (X : State) (Pk C : Nat) : Prop :=
-  ∀ n X' st' cfg' hs', stepN mon px n X = .inl X' → Rel3 F cs P hooks prog st' cfg' hs' X' →
-    FrBound hs' C → LiveLe hs' Pk
+    (prog : AxCut.Prog) (st : Pos.State) (X : State) (Pk C : Nat) : Prop :=
+  ∀ n X' st' cfg' hs', Reachable prog st st' → stepN mon px n X = .inl X' →
+    Rel3 F cs P hooks prog st' cfg' hs' X' → FrBound hs' C → LiveLe0 hs' Pk
 
 theorem PeakFrom.step {F : Frame} {mon : MonCfg} {px : X86.Prog} {cs : List Code} {P : Program} {hooks : Bool}
-    {prog : AxCut.Prog} {X X' : State} {Pk C n : Nat} (h : PeakFrom F mon px cs P hooks prog X Pk C)
-    (hn : stepN mon px n X = .inl X') : PeakFrom F mon px cs P hooks prog X' Pk C :=
-  fun n' X'' st' cfg' hs' hn' R => h (n + n') X'' st' cfg' hs' (stepN_trans mon px hn hn') R
+    {prog : AxCut.Prog} {st st1 : Pos.State} {o : Option (Bool × Word)} {X X' : State} {Pk C n : Nat}
+    (h : PeakFrom F mon px cs P hooks prog st X Pk C) (hs : Pos.step prog st = .next st1 o)
+    (hn : stepN mon px n X = .inl X') : PeakFrom F mon px cs P hooks prog st1 X' Pk C :=
+  fun n' X'' st' cfg' hs' hr hn' R =>
+    h (n + n') X'' st' cfg' hs' (Scc.Props.C06Generic.reachable_prepend hs hr) (stepN_trans mon px hn hn') R
 
 include HF h8 hmon LA hndL hfitX hcs hclean E in
 /-- THE THREE-WAY RUN UNDER THE FOOTPRINT BOUND: a heap of `64·(Pk + A + 2)` bytes is enough for a terminating
@@ -108,7 +118,7 @@ theorem run3_peak (hooks : Bool) (prog : AxCut.Prog) (c : Nat) (code : List Mock
       Rel3 F cs (Program.ofOps code) hooks prog st cfg hs X → StmtOK st.stmt → LetLe A st.stmt →
       cfg.out = acc → cfg.next + fuel < 2 ^ 64 → FrBound hs (Pk + 1) →
       FrBound hs Cb → Cb + A * fuel ≤ C →
-      PeakFrom F mon px cs (Program.ofOps code) hooks prog X Pk C →
+      PeakFrom F mon px cs (Program.ofOps code) hooks prog st X Pk C →
       Pos.runState prog fuel st acc = ⟨out, .done v⟩ →
       (∃ n XL, stepN mon px n X = .inl XL ∧ step mon px XL = .inr (.done v) ∧ XL.out.reverse = out) ∧
       BChain mon px (fun st X => ∃ cfg hs, Rel3 F cs (Program.ofOps code) hooks prog st cfg hs X ∧
@@ -148,13 +158,13 @@ theorem run3_peak (hooks : Bool) (prog : AxCut.Prog) (c : Nat) (code : List Mock
       simp only [hst] at h hsim
       rw [hst] at hsafe'
       have hc' := hcap st' (Reachable.step Reachable.refl hst)
-      obtain ⟨cfg', hs', X', n, h1, h2, h3, hfr, hpk, R', hok'⟩ := hsim (withinCapacity_of_le hc') hc'
+      obtain ⟨cfg', hs', X', n, h1, hpr, h2, h3, hfr, hpk, R', hok'⟩ := hsim (withinCapacity_of_le hc') hc'
       have hacc' : cfg'.out = outAfter o acc := by rw [h2, hacc]
       have h' : Pos.runState prog fuel st' (outAfter o acc) = ⟨out, .done v⟩ := by
         cases o <;> exact h
       have hlet' : LetLe A st'.stmt := letLe_step hA hst hok.1 hlet
       have hcb' : FrBound hs' (Cb + A) := hcb.of_frLe (FrLe.mono' hfr (by omega)) hw
-      have hlive' : LiveLe hs' Pk := hP n X' st' cfg' hs' h1 R'
+      have hlive' : LiveLe0 hs' Pk := hP n X' st' cfg' hs' (Reachable.step Reachable.refl hst) h1 R'
         (fun rs lin lazy live F J => by have := hcb' rs lin lazy live F J; omega)
       have hfb' : FrBound hs' (Pk + 1) := hfb.step hfr.2.1 hpk hw hlive'
       have hC' : Cb + A + A * fuel ≤ C := by
@@ -163,7 +173,7 @@ theorem run3_peak (hooks : Bool) (prog : AxCut.Prog) (c : Nat) (code : List Mock
       obtain ⟨⟨n', XL, g1, g2, g3⟩, hch⟩ := run3_peak hooks prog c code nargs c' hcomp hsafe htp hfit DX hprog Pk C A
         hA hbytes fuel st' (outAfter o acc) cfg' hs' X' out v (Cb + A) hsafe'
         (fun st'' hr => hcap st'' (Scc.Props.C06Generic.reachable_prepend hst hr)) R' hok' hlet' hacc' (by omega)
-        hfb' hcb' hC' (hP.step h1) h'
+        hfb' hcb' hC' (hP.step hst h1) h'
       exact ⟨⟨n + n', XL, stepN_trans mon px h1 g1, g2, g3⟩, ⟨cfg, hs, R, hfb, hcC⟩, Or.inr ⟨n, X', h1, hch⟩⟩
 
 include HF h8 hmon LA hndL hfitX hcs hclean E in
@@ -181,7 +191,7 @@ theorem run3_prefix (hooks : Bool) (prog : AxCut.Prog) (c : Nat) (code : List Mo
       Rel3 F cs (Program.ofOps code) hooks prog st cfg hs X → StmtOK st.stmt → LetLe A st.stmt →
       cfg.next + fuel < 2 ^ 64 → FrBound hs (Pk + 1) →
       FrBound hs Cb → Cb + A * fuel ≤ C →
-      PeakFrom F mon px cs (Program.ofOps code) hooks prog X Pk C →
+      PeakFrom F mon px cs (Program.ofOps code) hooks prog st X Pk C →
       BChain mon px (fun st X => ∃ cfg hs, Rel3 F cs (Program.ofOps code) hooks prog st cfg hs X ∧
           FrBound hs (Pk + 1) ∧ FrBound hs C) (statesOf prog fuel st) X
   | 0, st, cfg, hs, X, Cb, _, _, R, _, _, _, hfb, hcb, hC, _ =>
@@ -214,10 +224,10 @@ theorem run3_prefix (hooks : Bool) (prog : AxCut.Prog) (c : Nat) (code : List Mo
       simp only [hst] at hsim
       rw [hst] at hsafe'
       have hc' := hcap st' (Reachable.step Reachable.refl hst)
-      obtain ⟨cfg', hs', X', n, h1, h2, h3, hfr, hpk, R', hok'⟩ := hsim (withinCapacity_of_le hc') hc'
+      obtain ⟨cfg', hs', X', n, h1, hpr, h2, h3, hfr, hpk, R', hok'⟩ := hsim (withinCapacity_of_le hc') hc'
       have hlet' : LetLe A st'.stmt := letLe_step hA hst hok.1 hlet
       have hcb' : FrBound hs' (Cb + A) := hcb.of_frLe (FrLe.mono' hfr (by omega)) hw
-      have hlive' : LiveLe hs' Pk := hP n X' st' cfg' hs' h1 R'
+      have hlive' : LiveLe0 hs' Pk := hP n X' st' cfg' hs' (Reachable.step Reachable.refl hst) h1 R'
         (fun rs lin lazy live F J => by have := hcb' rs lin lazy live F J; omega)
       have hfb' : FrBound hs' (Pk + 1) := hfb.step hfr.2.1 hpk hw hlive'
       have hC' : Cb + A + A * fuel ≤ C := by
@@ -226,7 +236,7 @@ theorem run3_prefix (hooks : Bool) (prog : AxCut.Prog) (c : Nat) (code : List Mo
       have hch := run3_prefix hooks prog c code nargs c' hcomp hsafe htp hfit DX hprog Pk C A
         hA hbytes fuel st' cfg' hs' X' (Cb + A) hsafe'
         (fun st'' hr => hcap st'' (Scc.Props.C06Generic.reachable_prepend hst hr)) R' hok' hlet' (by omega)
-        hfb' hcb' hC' (hP.step h1)
+        hfb' hcb' hC' (hP.step hst h1)
       exact ⟨⟨cfg, hs, R, hfb, hcC⟩, Or.inr ⟨n, X', h1, hch⟩⟩
 
 end Run3P
